@@ -346,6 +346,23 @@ def argsortReplay (j : Json) : Except String Json := do
   let trace ← j.getObjValAs? (List (Nat × Nat)) "trace"
   return Json.mkObj [("by_id", toJson (Hpv.Sorting.argsort ids trace)), ("by_position", toJson (Hpv.Sorting.argsortPos ids.length trace))]
 
+/-- the clustering policy on OBSERVED similarities: `rounds[k]` lists `[row, col, value]` for the k-th round (value = the
+order-preserving integer of the double); the oracle answers from the table of the round the current list length belongs to -/
+def argsortPolicy (j : Json) : Except String Json := do
+  let ids ← j.getObjValAs? (List String) "ids"
+  let eps ← j.getObjValAs? Int "eps"
+  let rounds ← j.getObjValAs? (List (List (Nat × Nat × Int))) "rounds"
+  let n := ids.length
+  let sim : List (Hpv.Sorting.Tree String) → Nat → Nat → Int := fun nodes r c =>
+    match rounds[n - nodes.length]? with
+    | none => 0
+    | some tab => match tab.find? (fun e => e.1 == r && e.2.1 == c) with
+      | some e => e.2.2
+      | none => 0
+  let start := ids.map Hpv.Sorting.Tree.leaf
+  return Json.mkObj [("result", toJson (Hpv.Sorting.argsortPolicy sim eps ids)),
+    ("pops", toJson (Hpv.Sorting.policyTrace sim eps n start))]
+
 /-! ### C09 -/
 section C09
 open Hpv.GM Hpv.Ic
@@ -839,6 +856,7 @@ def handle (j : Json) : Except String Json := do
   | "validate" => validateOp j
   | "ic.counts" => icCounts j
   | "argsort.replay" => argsortReplay j
+  | "argsort.policy" => argsortPolicy j
   | "resnik.precalc" => resnikPrecalc j
   | "meta.codec" => metaCodec j
   | "sim.unframe" => simUnframe j
